@@ -414,9 +414,11 @@ func c11Fields(r *rand.Rand, name string, L int) seqio.GenBankFields {
 	refs := make([]seqio.Reference, 0, 4)
 	a := r.Intn(L)
 	b := a + 1 + r.Intn(L-a)
-	refs = append(refs, seqio.Reference{Number: 1, Info: fmt.Sprintf("(bases %d to %d)", a+1, b), Authors: "A", Title: "T", Journal: "J",
+	// the numbers are those of the parent entry, not always 1..n.
+	n1 := []int{1, 2, 7}[r.Intn(3)]
+	refs = append(refs, seqio.Reference{Number: n1, Info: fmt.Sprintf("(bases %d to %d)", a+1, b), Authors: "A", Title: "T", Journal: "J",
 		Xref: map[string]string{"PUBMED": "1"}})
-	refs = append(refs, seqio.Reference{Number: 2, Info: fmt.Sprintf("(bases 1 to %d)", L), Title: "U"})
+	refs = append(refs, seqio.Reference{Number: n1 + 1 + r.Intn(2)*3, Info: fmt.Sprintf("(bases 1 to %d)", L), Title: "U"})
 	g := refs[:cap(refs)]
 	g[2] = seqio.Reference{Number: 98, Info: "GUARD"}
 	g[3] = seqio.Reference{Number: 99, Info: "GUARD"}
